@@ -110,8 +110,14 @@ def _main(pid, args, seed, t0):
 
         def _guarded_run_case(ctx_, res_, p_):
             n_before = len(res_.findings)
+            nan_before = len(getattr(res_, "nan_devs", []))
             try:
-                return _orig_run_case(ctx_, res_, p_)
+                out_ = _orig_run_case(ctx_, res_, p_)
+                nans = getattr(res_, "nan_devs", [])[nan_before:]
+                if nans and len(res_.findings) == n_before:
+                    res_.oracle_fail(f"a compared quantity is NaN (deviation '{nans[0]}'): the comparison cannot hold", p_,
+                                     detail={"deviations": sorted(set(nans))}, signature=f"{pid}:nan-deviation:{nans[0]}")
+                return out_
             except Exception as exc:  # noqa
                 if len(res_.findings) > n_before:
                     # the case has already produced a finding (e.g. the implementation's state has the wrong shape) and a
